@@ -186,7 +186,10 @@ def gen_exact(rng):
             lines.append('abs %d %d' % (c, a)); live[c] = live[a]; absd.add(c)
             lines.append('eval %d %d' % (c, live[c]))
         elif x < 0.58:
-            n = rng.choice([2, 4]); srcs = [rng.choice(ok) for _ in range(n)]; c = rng.randrange(6)
+            n = rng.choice([2, 4, 3, 5, 6, 7]); srcs = [rng.choice(ok) for _ in range(n)]; c = rng.randrange(6)
+            # other counts than powers of two: one landscape n times, or two landscapes three times each (the mean is then exact: a, resp. (a+b)/2)
+            if n in (3, 5, 7): srcs = [srcs[0]] * n
+            elif n == 6: srcs = [srcs[0], srcs[1]] * 3; rng.shuffle(srcs)
             if c in ok and len(ok) == 1: continue
             lines.append('avg %d %s' % (c, ' '.join(map(str, srcs)))); live[c] = max(live[s] for s in srcs); absd.add(c)   # an average is not combined further (keeps the samples on the 1/64 lattice)
             lines.append('eval %d %d' % (c, live[c]))
@@ -246,7 +249,15 @@ def gen_grid(rng):
             a = rng.choice(ok); c = rng.randrange(6); k = rng.choice(SC)
             lines.append('gscale %d %d %d %d' % (c, a, k, rng.randrange(2))); objs[c] = objs[a].map(lambda p: k * p); sizes[c] = sizes[a]
             lines.append('geval %d %d' % (c, sizes[c]))
-        elif x < 0.55: lines.append('gint %d' % rng.choice(ok))
+        elif x < 0.53:
+            n_ = rng.choice([2, 4, 3, 5, 6]); srcs = [rng.choice(ok) for _ in range(n_)]; c = rng.randrange(6)
+            if n_ in (3, 5): srcs = [srcs[0]] * n_
+            elif n_ == 6: srcs = [srcs[0], srcs[1]] * 3; rng.shuffle(srcs)
+            acc = objs[srcs[0]]
+            for s_ in srcs[1:]: acc = acc.op(objs[s_], lambda p, q: p + q)
+            lines.append('gavg %d %s' % (c, ' '.join(map(str, srcs)))); objs[c] = acc.map(lambda p: p / n_); sizes[c] = max(sizes[s_] for s_ in srcs)
+            lines.append('geval %d %d' % (c, sizes[c] + 1))
+        elif x < 0.6: lines.append('gint %d' % rng.choice(ok))
         elif x < 0.85:
             a, b = rng.choice(ok), rng.choice(ok); p = rng.choice([0, 1, 2])
             if p and sign_change_inside_cell(objs[a], objs[b], g0, g1, n): p = 0
